@@ -60,6 +60,20 @@ DiffFields(a, b) == {f \in {"ss", "nk", "ch", "holds", "srv", "lp", "cfg"} : a[f
 Eval(i) ==
   LET rec == Trace[i] IN
   IF rec.k \in {"reset", "end"} THEN TRUE
+  ELSE IF rec.k = "snap"
+  THEN (* all replicas were serialized and loaded: the abstract state must be unchanged *)
+       LET a == StOf(Trace[i - 1].post)  b == StOf(rec.post) IN
+       /\ IF /\ [a EXCEPT !.srv = <<>>] = [b EXCEPT !.srv = <<>>]
+             (* serverSessions never shrinks on a running server; a loaded one rebuilds it from the sessions *)
+             /\ {x \in ToSet(a.srv) : Sid(x, 0) \in DOMAIN a.ss /\ a.ss[Sid(x, 0)].sv} = ToSet(b.srv)
+          THEN TRUE
+          ELSE /\ PrintT(<<"PROP", <<"C14", "RoundTripKeepsState">>, rec.h, rec.i>>)
+               /\ PrintT(<<"PROP", <<"C03", "RoundTripKeepsState">>, rec.h, rec.i>>)
+               /\ PrintT(<<"SNAPDIFF", rec.h, rec.i, DiffFields(a, b)>>)
+       /\ \A pf \in StateInvFailures(b) : PrintT(<<"PROP", pf, rec.h, rec.i>>)
+       /\ \A k \in DOMAIN rec.lookup :
+             IF rec.lookup[k][2] = "nosuch" /\ Sid(rec.lookup[k][1], 0) \in DOMAIN b.ss
+             THEN PrintT(<<"PROP", <<"C17", "LookupSound">>, rec.h, rec.i>>) ELSE TRUE
   ELSE IF rec.k = "expire"
   THEN (* C17 ExpireExact: exactly the sessions with Reply = 0 idle for longer than the expiration *)
        LET want == {rec.ages[j][1] : j \in {q \in DOMAIN rec.ages : rec.ages[q][2] = 0 /\ rec.ages[q][3] > 0}} IN
